@@ -36,6 +36,8 @@ case "$cmd" in
     [ -n "$row" ] || { echo "unknown target $t (see fuzz/targets.tsv)"; exit 2; }
     pid="$(echo "$row" | cut -f2)"; lane="$(echo "$row" | cut -f3)"; split="$(echo "$row" | cut -f4)"
     runs="${2:-$(echo "$row" | cut -f5)}"; seed="${3:-${VERIF_SEED:-1}}"; maxlen="$(echo "$row" | cut -f6)"
+    # (the harness leaks on purpose in several lanes — forgotten guards, leaked recorder doubles, exporters with threads —
+    # so LeakSanitizer is off; leaks inside the code under test are C14's allocation-balance oracle's business)
     # a fresh corpus per run (VERIF_FUZZ_KEEP_CORPUS=1 keeps what earlier runs found), so that a run is as much a function
     # of the tree and the seed as libFuzzer allows
     cd "$ROOT/fuzz"; [ -n "${VERIF_FUZZ_KEEP_CORPUS:-}" ] || rm -rf "corpus/$t"; mkdir -p "corpus/$t"
@@ -52,7 +54,7 @@ for f in glob.glob(f"{root}/replays/{pid}/*.json"):
             b=bytes([len(b)])+b+s
         open(f"{root}/fuzz/corpus/{t}/seed-{os.path.basename(f)}","wb").write(b)
 PY
-    VERIF_ROOT="$ROOT" RUSTFLAGS="--cfg metrics_verif" cargo +nightly fuzz run --fuzz-dir "$ROOT/fuzz" "$t" -- -runs="$runs" -seed="$seed" -len_control=0 -max_len="$maxlen" -print_final_stats=1
+    ASAN_OPTIONS="detect_leaks=0${ASAN_OPTIONS:+:$ASAN_OPTIONS}" VERIF_ROOT="$ROOT" RUSTFLAGS="--cfg metrics_verif" cargo +nightly fuzz run --fuzz-dir "$ROOT/fuzz" "$t" -- -runs="$runs" -seed="$seed" -len_control=0 -max_len="$maxlen" -detect_leaks=0 -print_final_stats=1
     ;;
   replayfile)
     t="$1"; art="$2"
